@@ -71,31 +71,84 @@ Proof.
     rewrite (lex_number_int d ds rest (adv d p) z Hds Hr RT). reflexivity.
 Qed.
 
+(** a ratio in lowest terms prints as numerator/denominator; followed by a delimiter or the end of the input
+    that text is one token: that ratio *)
+Lemma take_while_digits_then : forall ds c rest p, forallb is_digit ds = true -> is_digit c = false ->
+  take_while is_digit (ds ++ c :: rest) p = (ds, c :: rest, adv_all ds p).
+Proof. intros ds c rest p Hd Hc. apply take_while_all; [exact Hd|exact Hc]. Qed.
+
+Theorem printed_ratio_is_its_token : forall n d rest p f,
+  (-2147483648 <= n <= 2147483647)%Z -> (1 <= d <= 2147483647)%Z -> delimited rest ->
+  exists q, lex_next (S f) (print_Z n ++ [47] ++ print_Z d ++ rest) p = Ok (Some (TPrim (PRat n d), q), rest, q).
+Proof.
+  intros n d rest p f Hn Hd Hr.
+  pose proof (int_roundtrip n Hn) as RTn. pose proof (int_roundtrip d ltac:(lia)) as RTd.
+  destruct (digits_roundtrip d ltac:(lia)) as [_ [Dd NEd]].
+  assert (Ed : print_Z d = digits_of d) by (unfold print_Z; destruct (d <? 0)%Z eqn:E; [apply Z.ltb_lt in E; lia|reflexivity]).
+  rewrite Ed in *.
+  (* the scan of the numerator's digits stops at the slash, the denominator's at the delimiter *)
+  assert (SL : is_digit 47 = false) by reflexivity.
+  assert (TD : forall q, take_while is_digit (digits_of d ++ rest) q = (digits_of d, rest, adv_all (digits_of d) q)).
+  { intros q. apply take_while_all; [exact Dd|]. destruct rest as [|c r]; [exact I|]. now apply delimiter_facts. }
+  assert (PD : forall q (X : res (token * list char * pos)), peek_delim rest q X = X).
+  { intros q X. unfold peek_delim, test_delimiter. destruct rest as [|c r]; [reflexivity|]. cbn in Hr. now rewrite Hr. }
+  assert (NUM : forall c ds q, forallb is_digit ds = true -> parse_i32 (c :: ds) = Some n ->
+            exists q', lex_number c (ds ++ [47] ++ digits_of d ++ rest) q = Ok (TPrim (PRat n d), rest, q')).
+  { intros c ds q Hds Hp. unfold lex_number. cbn [app].
+    pose proof (take_while_digits_then ds 47 (digits_of d ++ rest) q Hds SL) as X. unfold char in *. rewrite X.
+    change (47 =? c_e) with false. change (47 =? c_dot) with false. change (47 =? c_slash) with true. cbv iota.
+    rewrite TD. rewrite PD, Hp, RTd. destruct d as [|d'|d']; try lia. eexists. reflexivity. }
+  unfold print_Z in *. destruct (n <? 0)%Z eqn:E.
+  - apply Z.ltb_lt in E. destruct (digits_roundtrip (- n)%Z ltac:(lia)) as [_ [D NE]].
+    destruct (digits_of (- n)) as [|c ds] eqn:ED; [congruence|].
+    assert (Hc : is_digit c = true) by (cbn in D; now apply andb_true_iff in D as [D _]).
+    rewrite lex_next_S. cbn [app]. cbv zeta.
+    change (is_ws 45) with false. change (45 =? c_semi) with false. change (45 =? c_lparen) with false.
+    change (45 =? c_rparen) with false. change (45 =? c_hash) with false. change (45 =? c_quote) with false.
+    change (45 =? c_backquote) with false. change (45 =? c_comma) with false. change (45 =? c_dot) with false.
+    change ((45 =? c_plus) || (45 =? c_minus)) with true. cbv iota.
+    rewrite Hc. cbn [orb].
+    destruct (NUM 45 (c :: ds) (adv 45 p) D RTn) as [q' K]. cbn [app] in K.
+    change (c :: ds ++ 47 :: digits_of d ++ rest) with ((c :: ds) ++ 47 :: digits_of d ++ rest).
+    cbn [app]. rewrite K. eexists. reflexivity.
+  - apply Z.ltb_ge in E. destruct (digits_roundtrip n E) as [_ [D NE]].
+    destruct (digits_of n) as [|c ds] eqn:ED; [congruence|].
+    assert (Hc : is_digit c = true) by (cbn in D; now apply andb_true_iff in D as [D _]).
+    assert (Hds : forallb is_digit ds = true) by (cbn in D; now apply andb_true_iff in D as [_ D]).
+    destruct (digit_facts c Hc) as [F1 [F2 [F3 [F4 [F5 [F6 [F7 [F8 [F9 [F10 [F11 F12]]]]]]]]]]].
+    rewrite lex_next_S. cbn [app]. cbv zeta.
+    rewrite F1, F2, F3, F4, F5, F6, F7, F8, F9, F10, F11, F12. cbn [orb]. rewrite Hc.
+    destruct (NUM c ds (adv c p) Hds RTn) as [q' K]. cbn [app] in K. rewrite K. eexists. reflexivity.
+Qed.
+
 (** * trees of atoms: what is printed is read back *)
 
 
 Local Close Scope N_scope.
 
-(** the atoms whose printed form is a token: exact integers, booleans, characters, plain identifiers *)
-Inductive atom := AInt (z : Z) | ABool (b : bool) | AChar (c : char) | ASym (c : char) (cs : list char).
+(** the atoms whose printed form is a token: exact integers, ratios in lowest terms, booleans, characters, plain
+    identifiers *)
+Inductive atom := AInt (z : Z) | ARat (n d : Z) | ABool (b : bool) | AChar (c : char) | ASym (c : char) (cs : list char).
 
 Definition atext (a : atom) : list char :=
   match a with
   | AInt z => print_Z z
+  | ARat n d => print_Z n ++ [47%N] ++ print_Z d
   | ABool true => [35%N; 116%N]
   | ABool false => [35%N; 102%N]
   | AChar c => [35%N; 92%N; c]
   | ASym c cs => c :: cs
   end.
 Definition aval (a : atom) : value :=
-  match a with AInt z => VNum (NInt z) | ABool b => VBool b | AChar c => VChar c | ASym c cs => VSym (c :: cs) end.
+  match a with AInt z => VNum (NInt z) | ARat n d => VNum (NRat n d) | ABool b => VBool b | AChar c => VChar c | ASym c cs => VSym (c :: cs) end.
 Definition atok (a : atom) : token :=
   match a with
-  | AInt z => TPrim (PInt z) | ABool b => TPrim (PBool b) | AChar c => TPrim (PChar c) | ASym c cs => TIdent (c :: cs)
+  | AInt z => TPrim (PInt z) | ARat n d => TPrim (PRat n d) | ABool b => TPrim (PBool b) | AChar c => TPrim (PChar c) | ASym c cs => TIdent (c :: cs)
   end.
 Definition a_ok (a : atom) : Prop :=
   match a with
   | AInt z => (-2147483648 <= z <= 2147483647)%Z
+  | ARat n d => (-2147483648 <= n <= 2147483647)%Z /\ (2 <= d <= 2147483647)%Z /\ Z.gcd n d = 1%Z
   | ABool _ | AChar _ => True
   | ASym c cs => plain_initial c = true /\ forallb is_subsequent cs = true
   end.
@@ -197,7 +250,7 @@ Proof. reflexivity. Qed.
 Lemma display_tree : forall t f st, depth t <= f -> display (S f) st (tval t) = Some (ttext t).
 Proof.
   induction t as [a|l IH] using T_ind'; intros f st Hf.
-  - destruct a as [z|[|]|c|c cs]; reflexivity.
+  - destruct a as [z|n d|[|]|c|c cs]; reflexivity.
   - rewrite tval_node. destruct l as [|x r]; [reflexivity|].
     rewrite depth_node, depths_cons in Hf. destruct f as [|f]; [lia|].
     rewrite tvals_cons, display_pair. inversion IH as [|? ? Hx Hr]; subst.
@@ -218,8 +271,24 @@ Definition dval (d : datum) (v : value) : Prop := forall st, read_literal d st =
 
 Lemma dval_int : forall z l, dval (DPrim (PInt z) l) (VNum (NInt z)).
 Proof. intros z l st. reflexivity. Qed.
-Lemma dval_atom : forall a l, dval (match atok a with TPrim p => DPrim p l | TIdent x => DSym x l | _ => DNil l end) (aval a).
-Proof. intros [z|b|c|c cs] l st; reflexivity. Qed.
+Lemma exact_ratio_lowest : forall n d, (-2147483648 <= n <= 2147483647)%Z -> (2 <= d <= 2147483647)%Z -> Z.gcd n d = 1%Z ->
+  exact_ratio n d = Some (NRat n d).
+Proof.
+  intros n d Hn Hd Hg. unfold exact_ratio.
+  destruct (d =? 0)%Z eqn:E0; [apply Z.eqb_eq in E0; lia|].
+  destruct (d <? 0)%Z eqn:E1; [apply Z.ltb_lt in E1; lia|].
+  rewrite Hg, !Z.quot_1_r. unfold fits_i32, i32_min, i32_max.
+  replace ((-2147483648 <=? n) && (n <=? 2147483647))%Z with true by (symmetry; apply andb_true_iff; split; apply Z.leb_le; lia).
+  replace ((-2147483648 <=? d) && (d <=? 2147483647))%Z with true by (symmetry; apply andb_true_iff; split; apply Z.leb_le; lia).
+  cbn [andb]. destruct (d =? 1)%Z eqn:E2; [apply Z.eqb_eq in E2; lia|reflexivity].
+Qed.
+
+Lemma dval_atom : forall a l, a_ok a ->
+  dval (match atok a with TPrim p => DPrim p l | TIdent x => DSym x l | _ => DNil l end) (aval a).
+Proof.
+  intros [z|n d|b|c|c cs] l Ha st; try reflexivity.
+  destruct Ha as [Hn [Hd Hg]]. cbn [atok aval read_literal eval_primitive]. now rewrite (exact_ratio_lowest n d Hn Hd Hg).
+Qed.
 Lemma dval_nil : forall l, dval (DNil l) VNil.
 Proof. intros l st. reflexivity. Qed.
 Lemma dval_cons : forall a b l va vb, dval a va -> dval b vb -> dval (DCons a b l) (VPair va vb).
@@ -238,11 +307,15 @@ Proof. intros. cbn [build_list]. rewrite tvals_cons. apply dval_cons; [assumptio
 (** the first character of a printed tree is a digit, a minus sign or an opening parenthesis *)
 Lemma ttext_head : forall t, in_range t -> exists c r, ttext t = c :: r /\ is_ws c = false.
 Proof.
-  intros [[z|[|]|c|c cs]|l] H.
+  intros [[z|n d|[|]|c|c cs]|l] H.
   - cbn [ttext atext]. unfold print_Z. destruct (z <? 0)%Z eqn:E.
     + eexists _, _. split; [reflexivity|reflexivity].
     + apply Z.ltb_ge in E. pose proof (digits_first_is_digit z E) as F.
       destruct (digits_of z) as [|c r]; [contradiction|]. exists c, r. split; [reflexivity|]. now apply digit_facts.
+  - cbn [ttext atext]. unfold print_Z at 1. destruct (n <? 0)%Z eqn:E.
+    + eexists _, _. split; [reflexivity|reflexivity].
+    + apply Z.ltb_ge in E. pose proof (digits_first_is_digit n E) as F.
+      destruct (digits_of n) as [|c r]; [contradiction|]. eexists c, _. split; [reflexivity|]. now apply digit_facts.
   - eexists _, _. split; [reflexivity|reflexivity].
   - eexists _, _. split; [reflexivity|reflexivity].
   - eexists _, _. split; [reflexivity|reflexivity].
@@ -256,8 +329,10 @@ Qed.
 Lemma atom_token : forall a rest p f, a_ok a -> delimited rest ->
   exists q, lex_next (S f) (atext a ++ rest) p = Ok (Some (atok a, q), rest, q).
 Proof.
-  intros [z|[|]|c|c cs] rest p f Ha Hd; cbn [atext atok].
+  intros [z|n d|[|]|c|c cs] rest p f Ha Hd; cbn [atext atok].
   - eexists. now apply printed_integer_is_its_token.
+  - destruct Ha as [Hn [Hdd Hg]]. rewrite <- !app_assoc.
+    destruct (printed_ratio_is_its_token n d rest p f Hn ltac:(lia) Hd) as [q K]. exists q. exact K.
   - eexists. reflexivity.
   - eexists. reflexivity.
   - eexists. reflexivity.
@@ -343,10 +418,11 @@ Proof.
     rewrite <- E in K. fold (lex_fuel (lrest s)) in K.
     pose proof (p_advance_eq _ _ _ _ K) as HA.
     destruct fuel as [|f]; [lia|].
-    destruct a as [z|b|c|c cs];
+    pose proof (dval_atom a None Hr) as DV.
+    destruct a as [z|n d|b|c|c cs];
       (eexists _, _, _, _, _; split; [exact HA|]; split; [reflexivity|];
        split; [discriminate|]; split; [discriminate|]; cbn [read_current pcur atok];
-       split; [reflexivity|]; split; [reflexivity|]; intros st; reflexivity).
+       split; [reflexivity|]; split; [reflexivity|]; first [intros st; reflexivity | exact DV]).
   - (* a list *)
     pose (body := match l with [] => [41%N] | x :: r => ttext x ++ tailtext r end ++ rest).
     pose (s1 := {| lrest := body; lpos := adv c_lparen (lpos s); pcur := Some (TLParen, adv c_lparen (lpos s));
@@ -419,7 +495,7 @@ Proof.
   destruct (length tx) eqn:EL; cbn [read_all]; rewrite HE; reflexivity.
 Qed.
 
-(** the hypotheses are satisfiable: the tree (-42 (a #t) #\x 7) *)
+(** the hypotheses are satisfiable: the tree (-42 (a #t -3/4) #\x 7) *)
 Example a_tree_in_range :
-  in_range (Node [Leaf (AInt (-42)); Node [Leaf (ASym 97%N []); Leaf (ABool true)]; Leaf (AChar 120%N); Leaf (AInt 7)]).
+  in_range (Node [Leaf (AInt (-42)); Node [Leaf (ASym 97%N []); Leaf (ABool true); Leaf (ARat (-3) 4)]; Leaf (AChar 120%N); Leaf (AInt 7)]).
 Proof. cbn. repeat split; try lia. Qed.
